@@ -114,6 +114,30 @@ def generate():
            "From Coq Require Import List.", "From GW Require Import InvProg.", "Import ListNotations.", ""]
     out.append("Definition exn_ancestors (c : iexn) : list iexn :=\n  match c with\n" +
                ''.join(f"  | {CLASSES[c]} => [{'; '.join(CLASSES[a] for a in anc[c])}]\n" for c in CLASSES) + "  | IOther => []\n  end.\n")
+    # _map_response: for sensor in sensors: try: result[sensor.id_] = sensor.read(response) except <classes>: result[sensor.id_] = None; return result
+    mr = [n for n in cls.body if isinstance(n, ast.FunctionDef) and n.name == '_map_response']
+    if len(mr) != 1 or [a.arg for a in mr[0].args.args] != ['response', 'sensors'] or [ast.unparse(d) for d in mr[0].decorator_list] != ['staticmethod']:
+        raise Unsupported('rf2v: Inverter._map_response signature')
+    mb = [n for n in mr[0].body if not (isinstance(n, ast.Expr) and isinstance(n.value, ast.Constant))]
+    okshape = (len(mb) == 3 and ast.unparse(mb[0]) in ('result = {}', 'result: dict[str, Any] = {}') and ast.unparse(mb[2]) == 'return result'
+               and isinstance(mb[1], ast.For) and ast.unparse(mb[1].target) == 'sensor' and ast.unparse(mb[1].iter) == 'sensors' and not mb[1].orelse
+               and len(mb[1].body) == 1 and isinstance(mb[1].body[0], ast.Try))
+    if not okshape: fail(mr[0], '_map_response is not `result = {}; for sensor in sensors: try ...; return result`')
+    tr2 = mb[1].body[0]
+    if tr2.orelse or tr2.finalbody or len(tr2.handlers) != 1 or [ast.unparse(n) for n in tr2.body] != ['result[sensor.id_] = sensor.read(response)']:
+        fail(tr2, 'the try of _map_response does not store sensor.read(response) under sensor.id_')
+    h2 = tr2.handlers[0]
+    hb2 = [ast.unparse(n) for n in h2.body if not is_log(n)]
+    if hb2 != ['result[sensor.id_] = None']: fail(h2, 'the handler of _map_response does not store None')
+    elts = h2.type.elts if isinstance(h2.type, ast.Tuple) else [h2.type] if h2.type is not None else fail(h2, 'bare except')
+    PY = {'ValueError': 'PcValueError', 'IndexError': 'PcIndexError', 'OverflowError': 'PcOverflowError', 'KeyError': 'PcKeyError', 'ZeroDivisionError': 'PcZeroDivisionError',
+          'TypeError': 'PcTypeError', 'NotImplementedError': 'PcNotImplementedError', 'AttributeError': 'PcAttributeError', 'ArithmeticError': 'PcArithmeticError',
+          'LookupError': 'PcLookupError', 'Exception': 'PcException'}
+    mcl = []
+    for e in elts:
+        if ast.unparse(e) not in PY: fail(e, 'exception class of _map_response not understood')
+        mcl.append(PY[ast.unparse(e)])
+    out.append(f"Definition map_response_catches : list pyclass := [{'; '.join(mcl)}].\n")
     out.append(f"Definition read_from_socket_shape : rfs_shape :=\n  mkRfs [{'; '.join(success)}]\n    [" + ';\n     '.join(handlers) + "].\n")
     return '\n'.join(out) + '\n'
 
